@@ -1,20 +1,60 @@
 #!/bin/bash
 # Re-apply every kept seeded change to /repo, run the registered quick check of its property, undo.
-# Prints one line per change; exit 1 if a change that breaks its property is no longer reported.
+#   seeded/<prop>-Mx/           property-breaking change: the check must FAIL, unless meta.json's note says
+#                               NOT A VIOLATION (check must PASS) or NOT REPORTED (a recorded limit: PASS expected,
+#                               a FAIL is welcome and printed as such)
+#   seeded/refactors/<prop>-Rx/ behaviour-preserving refactoring: the property's check and the other checks that
+#                               were run when it was recorded must stay silent (PASS)
+# Prints one line per change; exit 1 if anything is not as expected.
 # (Uses /repo itself: do not run anything else against /repo meanwhile.)
+# usage: tools/selftest_seeded.sh [mutants|refactors|all] [id-prefix]
 cd "$(dirname "$0")/.."
+what=${1:-all}; only=${2:-}
 bad=0
-for d in seeded/*/; do
+undo() { git -C /repo checkout -- . ; git -C /repo clean -fdq src tests 2>/dev/null; }
+if [ "$what" != refactors ]; then
+for d in seeded/C*/; do
   id=$(basename "$d"); prop=${id%%-*}
+  case "$id" in $only*) ;; *) continue;; esac
   patch="$d/patch.diff"; [ -f "$d/patch-ported-to-current-tree.diff" ] && patch="$d/patch-ported-to-current-tree.diff"
   if ! git -C /repo apply --check "$(realpath "$patch")" 2>/dev/null; then echo "$id: patch no longer applies (tree moved on)"; continue; fi
   git -C /repo apply "$(realpath "$patch")"
   line=$(./check.sh "$prop" quick 2>&1 | grep -E "^(PASS|FAIL|MACHINERY)" | tail -1 | cut -c1-60)
-  git -C /repo checkout -- . ; git -C /repo clean -fdq src
-  expect=FAIL; grep -q "NOT A VIOLATION" "$d/meta.json" && expect=PASS
+  undo
+  expect=FAIL
+  grep -q "NOT A VIOLATION" "$d/meta.json" && expect=PASS
+  if grep -q "NOT REPORTED" "$d/meta.json"; then
+    case "$line" in
+      PASS*) echo "$id: $line (recorded limit: not reported, as recorded)";;
+      FAIL*) echo "$id: $line (recorded as NOT REPORTED but it is reported now - update the note)";;
+      *) echo "$id: $line  <-- machinery problem"; bad=1;;
+    esac
+    continue
+  fi
   case "$line" in
     $expect*) echo "$id: $line (as expected)";;
     *) echo "$id: $line  <-- expected $expect"; bad=1;;
   esac
 done
+fi
+if [ "$what" != mutants ]; then
+for d in seeded/refactors/*/; do
+  id=$(basename "$d"); prop=${id%%-*}
+  case "$id" in $only*) ;; *) continue;; esac
+  patch="$d/patch.diff"
+  if ! git -C /repo apply --check "$(realpath "$patch")" 2>/dev/null; then echo "refactor $id: patch no longer applies (tree moved on)"; continue; fi
+  git -C /repo apply "$(realpath "$patch")"
+  props=$(python3 -c "
+import json,re,sys
+m=json.load(open('$d/meta.json'))
+print(' '.join(dict.fromkeys(re.match(r'(C\d+):',l).group(1) for l in m['checks_run_against_it'] if re.match(r'(C\d+):',l))))")
+  res=""
+  for q in $props; do
+    line=$(./check.sh "$q" quick 2>&1 | grep -E "^(PASS|FAIL|MACHINERY)" | tail -1 | cut -c1-12)
+    case "$line" in PASS*) res="$res $q:silent";; *) res="$res $q:ALARM($line)"; bad=1;; esac
+  done
+  undo
+  echo "refactor $id:$res"
+done
+fi
 exit $bad
